@@ -232,3 +232,207 @@ def gen_views(repo):
     return '\n'.join(L), notes
 
 MODULES.append({'name': 'WfViews', 'src': 'lentil/wavefront.py', 'generator': gen_views, 'props': ['C07', 'C03']})
+
+
+# ---------------------------------------------------------------------------------------------------------------------
+# The loop body of Plane.multiply (wave 12): which array the three attributes are read from under which test, how the
+# phasor data is composed, which arguments slice_offset receives and which products are kept.
+#     mask = self.mask if self.mask.ndim < 3 else self.mask[n]
+#     amp = self.amplitude * mask[s] if self.amplitude.size == 1 else self.amplitude[s] * mask[s]
+#     opd = self.opd if self.opd.size == 1 else self.opd[s]
+#     phasor = Field(data=amp*np.exp(...), pixelscale=…, offset=lentil.helper.slice_offset(s, self.shape), tilt=…)
+#     res = field * phasor
+#     if res.size > 0: out.data.append(field * phasor)
+# Translated from the expression trees as the value AT ONE SAMPLE of the slice `s` (NumPy's elementwise product and the
+# broadcast of a one-element array are the trusted reading): `self.x` -> the whole attribute (used as a scalar),
+# `self.x[s]` / `mask[s]` -> its entry at the sample, `a * b` -> product, `a if self.x.size == 1 else b` -> `if`.
+# Anything else is refused. Dropping `* mask[s]`, swapping the branches, slicing the wrong attribute or changing the
+# size test CHANGES the generated definitions and breaks C07.loop_body_is_segPhasor / C03.segment_slices_are_boundary_slices.
+def gen_loop(repo):
+    import os
+    mod = ast.parse(open(os.path.join(repo, 'lentil/plane.py')).read())
+    fn = _find_method(mod, 'Plane', 'multiply')
+    outer = [s for s in fn.body if isinstance(s, ast.For)]
+    if len(outer) != 1 or ast.unparse(outer[0].target) != 'field' or ast.unparse(outer[0].iter) != 'data':
+        raise Refuse('Plane.multiply: outer loop `for field in data` not found')
+    if len(outer[0].body) != 1 or not isinstance(outer[0].body[0], ast.For): raise Refuse('Plane.multiply: outer loop body changed')
+    inner = outer[0].body[0]
+    if ast.unparse(inner.target) != '(n, s)' or ast.unparse(inner.iter) != 'enumerate(self._slice)':
+        raise Refuse(f'Plane.multiply: inner loop is `for {ast.unparse(inner.target)} in {ast.unparse(inner.iter)}`')
+    st = [s for s in inner.body if not (isinstance(s, ast.Expr) and isinstance(s.value, ast.Constant))]
+    if len(st) != 6: raise Refuse(f'Plane.multiply: loop body has {len(st)} statements, expected 6')
+    def assign(s, name):
+        if not (isinstance(s, ast.Assign) and len(s.targets) == 1 and ast.unparse(s.targets[0]) == name):
+            raise Refuse(f'Plane.multiply loop: expected an assignment to {name}, got `{ast.unparse(s)}`')
+        return s.value
+    params = []
+    def par(p):
+        if p not in params: params.append(p)
+        return p
+    def size_test(t):
+        # self.<x>.size == 1
+        if (isinstance(t, ast.Compare) and len(t.ops) == 1 and isinstance(t.ops[0], ast.Eq) and isinstance(t.left, ast.Attribute)
+                and t.left.attr == 'size' and isinstance(t.left.value, ast.Attribute) and ast.unparse(t.left.value.value) == 'self'
+                and isinstance(t.comparators[0], ast.Constant) and type(t.comparators[0].value) is int):
+            return f'decide ({par(t.left.value.attr + "_size")} = ({t.comparators[0].value} : Int))'
+        raise Refuse(f'Plane.multiply loop: test not understood: {ast.unparse(t)}')
+    def ev(e):
+        if isinstance(e, ast.IfExp): return f'(if {size_test(e.test)} then {ev(e.body)} else {ev(e.orelse)})'
+        if isinstance(e, ast.BinOp) and isinstance(e.op, ast.Mult): return f'({ev(e.left)} * {ev(e.right)})'
+        if isinstance(e, ast.Attribute) and ast.unparse(e.value) == 'self' and e.attr in ('amplitude', 'opd'): return par(e.attr)
+        if isinstance(e, ast.Subscript) and ast.unparse(e.slice) == 's':
+            b = e.value
+            if isinstance(b, ast.Attribute) and ast.unparse(b.value) == 'self' and b.attr in ('amplitude', 'opd'): return par(b.attr + '_s')
+            if isinstance(b, ast.Name) and b.id == 'mask': return par('mask_s')
+        raise Refuse(f'Plane.multiply loop: expression not understood: {ast.unparse(e)}')
+    L, notes = [], []
+    # 1. mask = self.mask if self.mask.ndim < 3 else self.mask[n]
+    m = assign(st[0], 'mask')
+    if not (isinstance(m, ast.IfExp) and isinstance(m.test, ast.Compare) and len(m.test.ops) == 1 and ast.unparse(m.test.left) == 'self.mask.ndim'
+            and isinstance(m.test.comparators[0], ast.Constant) and type(m.test.comparators[0].value) is int):
+        raise Refuse(f'Plane.multiply loop: mask selection not understood: {ast.unparse(m)}')
+    op = {ast.Lt: '<', ast.LtE: '≤', ast.Gt: '>', ast.GtE: '≥', ast.Eq: '=', ast.NotEq: '≠'}.get(type(m.test.ops[0]))
+    if op is None: raise Refuse('Plane.multiply loop: mask test operator')
+    sel = {'self.mask': 'false', 'self.mask[n]': 'true'}
+    if ast.unparse(m.body) not in sel or ast.unparse(m.orelse) not in sel: raise Refuse(f'Plane.multiply loop: mask selection branches: {ast.unparse(m)}')
+    L.append(f'/-- translated from `plane.py:Plane.multiply` (line {st[0].lineno}): `{ast.unparse(st[0])}` — `true`: the loop reads layer `n`\n(`self.mask[n]`), `false`: the whole mask -/')
+    L.append(f'def planeLoopMaskLayer (mask_ndim : Int) : Bool :=\n  if decide (mask_ndim {op} ({m.test.comparators[0].value} : Int)) then {sel[ast.unparse(m.body)]} else {sel[ast.unparse(m.orelse)]}\n')
+    notes.append(f'mask: {ast.unparse(m)}')
+    # 2./3. amp, opd
+    for s, name, ty, cls in ((st[1], 'amp', 'K', '[Mul K] '), (st[2], 'opd', 'R', '')):
+        params.clear()
+        t = ev(assign(s, name))
+        ps = sorted(params, key=lambda p: (not p.endswith('_size'), p))
+        L.append(f'/-- translated from `plane.py:Plane.multiply` (line {s.lineno}): `{ast.unparse(s)}` at one sample of the slice `s` -/')
+        L.append(f'def planeLoop{name.capitalize()} {{{ty} : Type}} {cls}' + ' '.join(f'({p} : {"Int" if p.endswith("_size") else ty})' for p in ps) + f' : {ty} :=\n  {t}\n')
+        notes.append(f'{name}: {t}')
+    # 4. phasor = Field(data=amp*np.exp(...), pixelscale=self.pixelscale, offset=lentil.helper.slice_offset(s, self.shape), tilt=...)
+    ph = assign(st[3], 'phasor')
+    if not (isinstance(ph, ast.Call) and ast.unparse(ph.func) == 'Field' and not ph.args): raise Refuse('Plane.multiply loop: phasor is not Field(keywords)')
+    kw = {k.arg: k.value for k in ph.keywords}
+    if sorted(kw) != ['data', 'offset', 'pixelscale', 'tilt']: raise Refuse(f'Plane.multiply loop: Field keywords {sorted(kw)}')
+    def dv(e):
+        if isinstance(e, ast.BinOp) and isinstance(e.op, ast.Mult): return f'({dv(e.left)} * {dv(e.right)})'
+        if isinstance(e, ast.Name) and e.id == 'amp': return 'amp'
+        if isinstance(e, ast.Call) and ast.unparse(e.func) == 'np.exp': return 'np_exp'
+        raise Refuse(f'Plane.multiply loop: phasor data not understood: {ast.unparse(e)}')
+    d = dv(kw['data'])
+    if d.count('amp') != 1 or d.count('np_exp') != 1: raise Refuse(f'Plane.multiply loop: phasor data {d}')
+    L.append(f'/-- translated from `plane.py:Plane.multiply` (line {st[3].lineno}): `data={ast.unparse(kw["data"])}` at one sample; `np_exp` is the value of\nthe `np.exp(...)` factor (its argument is `Gen.planePhaseArg`) -/')
+    L.append(f'def planeLoopData {{K : Type}} [Mul K] (amp np_exp : K) : K :=\n  {d}\n')
+    off = kw['offset']
+    if not (isinstance(off, ast.Call) and ast.unparse(off.func) == 'lentil.helper.slice_offset' and not off.keywords and len(off.args) == 2):
+        raise Refuse(f'Plane.multiply loop: offset is not lentil.helper.slice_offset(a, b): {ast.unparse(off)}')
+    oa = [ast.unparse(a) for a in off.args]
+    nm = {'s': ('s_0_start', 's_0_stop', 's_1_start', 's_1_stop'), 'self.shape': ('self_shape_0', 'self_shape_1')}
+    if sorted(oa) != ['s', 'self.shape'] or oa[0] != 's': raise Refuse(f'Plane.multiply loop: slice_offset arguments {oa}')
+    L.append(f'/-- translated from `plane.py:Plane.multiply` (line {off.lineno}): `offset={ast.unparse(off)}` over the generated `Gen.sliceOffset` -/')
+    L.append('def planeLoopOffset (s_0_start s_0_stop s_1_start s_1_stop self_shape_0 self_shape_1 : Int) : Int × Int :=\n  Gen.sliceOffset '
+             + ' '.join(' '.join(nm[a]) for a in oa) + '\n')
+    if ast.unparse(kw['pixelscale']) != 'self.pixelscale': raise Refuse('Plane.multiply loop: phasor pixelscale')
+    # 5./6. res = field * phasor ; if res.size > 0: out.data.append(field * phasor)
+    if ast.unparse(assign(st[4], 'res')) != 'field * phasor': raise Refuse(f'Plane.multiply loop: `{ast.unparse(st[4])}`')
+    g = st[5]
+    if not (isinstance(g, ast.If) and not g.orelse and len(g.body) == 1 and ast.unparse(g.body[0]) in ('out.data.append(field * phasor)', 'out.data.append(res)')):
+        raise Refuse(f'Plane.multiply loop: append statement not understood: {ast.unparse(g)}')
+    t = g.test
+    if not (isinstance(t, ast.Compare) and len(t.ops) == 1 and ast.unparse(t.left) == 'res.size' and isinstance(t.comparators[0], ast.Constant)
+            and type(t.comparators[0].value) is int): raise Refuse(f'Plane.multiply loop: guard {ast.unparse(t)}')
+    gop = {ast.Lt: '<', ast.LtE: '≤', ast.Gt: '>', ast.GtE: '≥', ast.Eq: '=', ast.NotEq: '≠'}.get(type(t.ops[0]))
+    if gop is None: raise Refuse('Plane.multiply loop: guard operator')
+    L.append(f'/-- translated from `plane.py:Plane.multiply` (line {g.lineno}): `if {ast.unparse(t)}:` — which products `field * phasor` are appended -/')
+    L.append(f'def planeLoopKeep (res_size : Int) : Bool :=\n  decide (res_size {gop} ({t.comparators[0].value} : Int))\n')
+    notes.append(f'data: {d}; offset args: {oa}; keep: res.size {gop} {t.comparators[0].value}')
+    return '\n'.join(L), notes
+
+MODULES.append({'name': 'PlaneLoop', 'src': 'lentil/plane.py', 'generator': gen_loop, 'imports': ['LentilVerif.Gen.Helper'], 'props': ['C07', 'C03']})
+
+
+# ---------------------------------------------------------------------------------------------------------------------
+# Plane.shape / Plane.size / _plane_slice (wave 12): the dispatch on the number of mask dimensions that decides the
+# plane's shape, the number of segments and which arrays boundary_slice is applied to. `mask.shape` is a list of ints,
+# `mask.ndim` its length. Accepted statement shapes only (if/else with two returns; the if/elif chain of _plane_slice);
+# tests are comparisons of `self.mask.ndim` / `mask.ndim` / `self.size` with integer constants or `in (tuple of ints)`.
+_CMP = {ast.Lt: '<', ast.LtE: '≤', ast.Gt: '>', ast.GtE: '≥', ast.Eq: '=', ast.NotEq: '≠'}
+
+def _geom_int(e, recv):
+    """integer-valued expression over the mask's shape"""
+    src = ast.unparse(e)
+    if src == f'{recv}mask.ndim' or (recv == '' and src == 'mask.ndim'): return '(mask_shape.length : Int)'
+    if recv and src == 'self.size': return '(planeSize mask_shape)'
+    if isinstance(e, ast.Constant) and type(e.value) is int: return f'({e.value} : Int)'
+    if isinstance(e, ast.Subscript) and ast.unparse(e.value) == f'{recv}mask.shape' and isinstance(e.slice, ast.Constant) and type(e.slice.value) is int and e.slice.value >= 0:
+        return f'(mask_shape.getD {e.slice.value} 0)'
+    raise Refuse(f'plane geometry: integer expression not understood: {src}')
+
+def _geom_test(t, recv):
+    if isinstance(t, ast.Compare) and len(t.ops) == 1:
+        if type(t.ops[0]) in _CMP: return f'decide ({_geom_int(t.left, recv)} {_CMP[type(t.ops[0])]} {_geom_int(t.comparators[0], recv)})'
+        if isinstance(t.ops[0], ast.In) and isinstance(t.comparators[0], ast.Tuple) and t.comparators[0].elts:
+            x = _geom_int(t.left, recv)
+            return '(' + ' || '.join(f'decide ({x} = {_geom_int(c, recv)})' for c in t.comparators[0].elts) + ')'
+    raise Refuse(f'plane geometry: test not understood: {ast.unparse(t)}')
+
+def _geom_two_returns(fn, what):
+    st = [s for s in fn.body if not (isinstance(s, ast.Expr) and isinstance(s.value, ast.Constant))]
+    if not (len(st) == 1 and isinstance(st[0], ast.If) and len(st[0].body) == 1 and len(st[0].orelse) == 1
+            and isinstance(st[0].body[0], ast.Return) and isinstance(st[0].orelse[0], ast.Return)):
+        raise Refuse(f'{what}: body is not `if t: return a else: return b`')
+    return st[0].test, st[0].body[0].value, st[0].orelse[0].value
+
+def gen_geom(repo):
+    import os
+    mod = ast.parse(open(os.path.join(repo, 'lentil/plane.py')).read())
+    def prop(name):
+        for node in mod.body:
+            if isinstance(node, ast.ClassDef) and node.name == 'Plane':
+                for f in node.body:
+                    if isinstance(f, ast.FunctionDef) and f.name == name and any(ast.unparse(d) == 'property' for d in f.decorator_list): return f
+        raise Refuse(f'Plane.{name} property not found')
+    L, notes = [], []
+    # Plane.size
+    f = prop('size')
+    t, a, b = _geom_two_returns(f, 'Plane.size')
+    L.append(f'/-- translated from `plane.py:Plane.size` (line {f.lineno}): `{ast.unparse(t)}` ? `{ast.unparse(a)}` : `{ast.unparse(b)}`; `mask_shape` is `mask.shape`,\nits length `mask.ndim` -/')
+    # the test of Plane.size may not mention self.size
+    if 'self.size' in ast.unparse(t): raise Refuse('Plane.size refers to itself')
+    L.append(f'def planeSize (mask_shape : List Int) : Int :=\n  if {_geom_test(t, "self.")} then {_geom_int(a, "self.")} else {_geom_int(b, "self.")}\n')
+    notes.append(f'size: {ast.unparse(t)} ? {ast.unparse(a)} : {ast.unparse(b)}')
+    # Plane.shape
+    f = prop('shape')
+    t, a, b = _geom_two_returns(f, 'Plane.shape')
+    def shp(e):
+        if ast.unparse(e) == 'self.mask.shape': return 'mask_shape'
+        if isinstance(e, ast.Tuple): return '[' + ', '.join(_geom_int(x, 'self.') for x in e.elts) + ']'
+        raise Refuse(f'Plane.shape: returned value not understood: {ast.unparse(e)}')
+    L.append(f'/-- translated from `plane.py:Plane.shape` (line {f.lineno}): `{ast.unparse(t)}` ? `{ast.unparse(a)}` : `{ast.unparse(b)}` -/')
+    L.append(f'def planeShape (mask_shape : List Int) : List Int :=\n  if {_geom_test(t, "self.")} then {shp(a)} else {shp(b)}\n')
+    notes.append(f'shape: {ast.unparse(t)} ? {ast.unparse(a)} : {ast.unparse(b)}')
+    # _plane_slice
+    fn = [n for n in mod.body if isinstance(n, ast.FunctionDef) and n.name == '_plane_slice']
+    if len(fn) != 1 or [a.arg for a in fn[0].args.args] != ['mask']: raise Refuse('_plane_slice(mask) not found')
+    st = [s for s in fn[0].body if not (isinstance(s, ast.Expr) and isinstance(s.value, ast.Constant))]
+    if not (len(st) == 2 and isinstance(st[0], ast.If) and ast.unparse(st[1]) == 'return s'): raise Refuse('_plane_slice: body shape changed')
+    KIND = {'[Ellipsis]': 'ellipsis', '[np.s_[...]]': 'ellipsis', '[lentil.helper.boundary_slice(mask)]': 'whole',
+            '[lentil.helper.boundary_slice(m) for m in mask]': 'perLayer'}
+    def branch(body):
+        if len(body) == 1 and isinstance(body[0], ast.Raise): return '.error "' + ast.unparse(body[0].exc.func if isinstance(body[0].exc, ast.Call) else body[0].exc) + '"'
+        if len(body) == 1 and isinstance(body[0], ast.Assign) and ast.unparse(body[0].targets[0]) == 's' and ast.unparse(body[0].value) in KIND:
+            return '.ok .' + KIND[ast.unparse(body[0].value)]
+        raise Refuse(f'_plane_slice: branch not understood: {ast.unparse(body[0])}')
+    node = st[0]
+    if ast.unparse(node.test) != 'mask is None' or branch(node.body) != '.ok .ellipsis': raise Refuse('_plane_slice: the `mask is None` branch changed')
+    chain, cur = [], node.orelse
+    while len(cur) == 1 and isinstance(cur[0], ast.If):
+        chain.append((_geom_test(cur[0].test, ''), branch(cur[0].body))); cur = cur[0].orelse
+    last = branch(cur)
+    L.append('/-- what `_plane_slice` puts into `Plane._slice` -/')
+    L.append('inductive PlaneSliceKind where\n  /-- `[Ellipsis]`: one slice, the whole (0-d / 1-d) attribute -/\n  | ellipsis\n  /-- `[boundary_slice(mask)]`: one slice, of the 2-D mask -/\n  | whole\n'
+             '  /-- `[boundary_slice(m) for m in mask]`: one slice per layer -/\n  | perLayer\nderiving DecidableEq, Repr\n')
+    L.append(f'/-- translated from `plane.py:_plane_slice` (line {fn[0].lineno}) for a mask that is an array (`Plane.__init__` never passes `None`) -/')
+    body = ''.join(f'  if {t} then {b} else\n' for t, b in chain) + f'  {last}'
+    L.append('def planeSliceKind (mask_shape : List Int) : Except String PlaneSliceKind :=\n' + body + '\n')
+    notes.append('_plane_slice: ' + '; '.join(f'{t} -> {b}' for t, b in chain) + f'; else {last}')
+    return '\n'.join(L), notes
+
+MODULES.append({'name': 'PlaneGeom', 'src': 'lentil/plane.py', 'generator': gen_geom, 'props': ['C07', 'C03']})
